@@ -155,6 +155,14 @@ def run_body(h, run, kind):
     def rl_contract(it, f, args, kwargs):
         if state.get('entered'):
             calls.append((args, dict(kwargs)))
+            # contract of the nested call: it returns the lines of that file, or refuses with an AssemblerError that names
+            # a line of the nested file (refusal-is-AssemblerError-with-this-line, below)
+            if it.run.branch(z3.Bool('nested_read_refuses')):
+                inner = I.SObj(h.env.vars['Line'], {'file': I.Opaque('nested.file'), 'number': I.Opaque('nested.number'),
+                                                    'contents': I.Opaque('nested.contents')})
+                exc = it.instantiate(h.env.vars['AssemblerError'], ['error in the included file', inner], {})
+                it.run.notes['nested_exc'] = exc
+                raise I.PyRaise(exc)
             return [SubLines(args[0])]
         state['entered'] = True
         return it.inline(f, args, kwargs)
@@ -221,6 +229,20 @@ def obligations_reader(ctx, h):
                 ok = ok and isinstance(ln, I.SObj) and ln.fields.get('number') is not None
                 ctx.add(Obligation('%s/%s/path%d/refusal-is-AssemblerError-with-this-line' % (fn, kind, pi), list(p.pc), z3.BoolVal(bool(ok)),
                                    'INT', func=fn, kind='raises', cover=False, meta={'replay': rp, 'props': ['C14', 'C15', 'C10']}))
+                ne = p.notes.get('nested_exc')
+                if ne is not None:
+                    # an error found while reading an included file keeps ITS file and line on the way out
+                    same = e is ne or (e.cls.name == 'AssemblerError' and isinstance(ln, I.SObj) and isinstance(ne.fields.get('line'), I.SObj)
+                                       and all(ln.fields.get(k) is ne.fields['line'].fields.get(k) for k in ('file', 'number')))
+                    ctx.add(Obligation('%s/%s/path%d/error-of-an-included-file-keeps-its-own-file-and-line' % (fn, kind, pi), list(p.pc),
+                                       z3.BoolVal(bool(same)), 'INT', func=fn, kind='raises', cover=False,
+                                       meta={'replay': ('fault_bank', {'nested': True}), 'props': ['C15', 'C14'],
+                                             'what': 'an AssemblerError raised while reading an included file is re-attributed to another line'}))
+                continue
+            if p.notes.get('nested_exc') is not None:
+                ctx.add(Obligation('%s/%s/path%d/error-of-an-included-file-is-not-swallowed' % (fn, kind, pi), list(p.pc), z3.BoolVal(False), 'INT',
+                                   func=fn, kind='raises', cover=False, meta={'replay': ('fault_bank', {'nested': True}), 'props': ['C15', 'C14'],
+                                                                              'what': 'read_lines returns although reading an included file failed'}))
                 continue
             v = p.value
             st = v['state']
